@@ -245,8 +245,8 @@ def gen_cases(ck):
         cases.append(doc_case("boundary", d))
     for note, t in boundary_trees():
         cases.append(tree_case("raw", t, note=note))
-    n_gen = 2600 if quick else 60000
-    n_kind = 60 if quick else 1500
+    n_gen = 1100 if quick else 60000
+    n_kind = 30 if quick else 1500
     g = gm.Gen(rng)
     for k in gm.KINDS:                      # every kind on its own first
         for _ in range(n_kind):
@@ -255,7 +255,7 @@ def gen_cases(ck):
     for _ in range(n_gen):
         cases.append(doc_case("generated", g.doc()))
     # StructReg / Group documents against their desugared twins
-    for _ in range(300 if quick else 8000):
+    for _ in range(150 if quick else 8000):
         g.n = 0
         nodes = [g.node(["struct", "group", "struct", "intreg", "enumeration"]) for _ in range(rng.range(1, 3))]
         for n in nodes:
@@ -266,12 +266,12 @@ def gen_cases(ck):
             flat += desugar(n)
         cases.append(doc_case("twins", d, twin=gm.Doc(flat)))
     # formula-carrying kinds: implementation vs expectation
-    for _ in range(250 if quick else 5000):
+    for _ in range(150 if quick else 5000):
         g.n = 0
         cases.append(doc_case("formula", gm.Doc([g.k_formula() if rng.chance(2, 3) else g.k_iswiss()
                                                   for _ in range(rng.range(1, 3))])))
     # mutated documents
-    for _ in range(700 if quick else 20000):
+    for _ in range(350 if quick else 20000):
         d = g.doc([k for k in gm.KINDS])
         root = tree_of_text(d.xml())
         kind, benign = mutate(rng, root)
@@ -280,7 +280,7 @@ def gen_cases(ck):
     if ck.limitation_listed or os.environ.get("VERIF_C17_PROBE"):
         gp = gm.Gen(rng, probe_limitation=True)
         n = 0
-        while n < (150 if quick else 2000):
+        while n < (80 if quick else 2000):
             gp.n = 0
             s = gp.k_struct()
             if s.known_limitation():
